@@ -443,7 +443,7 @@ theorem rows_some (j c k : Nat) (hj : j ≠ 0) :
   exact gateOpen_some j x hj
 
 /-- the number of multiples of `j` among `1..k` is `k / j` -/
-theorem count_multiples (j k : Nat) (hj : 0 < j) :
+theorem count_multiples (j k : Nat) (_hj : 0 < j) :
     ((List.range' 1 k).filter (fun x => x % j = 0)).length = k / j := by
   induction k with
   | zero => simp
